@@ -100,6 +100,39 @@ let () =
         let ok_k = List.for_all2 (fun k r -> match r with
             | Ok (b, _) -> b = k_colourable_ref g (nat_of_int k) | _ -> false) (List.init (n + 2) (fun k -> k)) k_res in
         if ok_chi && ok_k then strict else strict ^ " DSATUR-MODEL-DISAGREES-WITH-ORACLE" in
+      (* corpus of the known finding C09:chromatic-index-byte-wrap: token B:<leaves>.<extra> names the
+         tree "star with <leaves> leaves at centre 0 plus a path of <extra> vertices off leaf 1";
+         the model of ChromaticIndex (with its byte conversion) is run on it, edge colours in
+         dense-array order *)
+      let strict = List.fold_left (fun strict t ->
+          if t.[0] <> 'B' then strict else
+            match parse_ints (String.sub t 2 (String.length t - 2)) with
+            | [leaves; extra] when extra <> 0 -> strict   (* validated by the harness only: see main.go *)
+            | [leaves; extra] ->
+              let bn = leaves + 1 + extra in
+              let ba = Array.make_matrix bn bn false in
+              let add i j = ba.(i).(j) <- true; ba.(j).(i) <- true in
+              for i = 1 to leaves do add 0 i done;
+              let prev = ref 1 in
+              for i = 0 to extra - 1 do add !prev (leaves + 1 + i); prev := leaves + 1 + i done;
+              let badj u v = let u = int_of_nat u and v = int_of_nat v in u < bn && v < bn && ba.(u).(v) in
+              let bg = { gn = nat_of_int bn; gadj = badj } in
+              let r = match chromatic_index_dsatur bg with
+                | Ok (ci, Some ce) ->
+                  let ce = Array.of_list (List.map int_of_z ce) in
+                  let cols = ref [] in
+                  let idx = ref 0 in
+                  for j = 1 to bn - 1 do
+                    for i = 0 to j - 1 do
+                      if ba.(i).(j) then cols := string_of_int ce.(!idx) :: !cols;
+                      incr idx
+                    done
+                  done;
+                  Printf.sprintf "%d:%s" (int_of_z ci) (String.concat "." (List.rev !cols))
+                | Ok (ci, None) -> Printf.sprintf "%d:nil" (int_of_z ci)
+                | Panic -> "panic" | Fuel -> "fuel" in
+              strict ^ " big=" ^ r
+            | _ -> strict) strict toks in
       let b = Buffer.create 256 in
       Printf.bprintf b "n=%d m=%d w=%d a=%d mc=%d:%s chi=%d kc=%s dg=%s gr=%s pr=%s" n m
         w_ref a_ref
